@@ -98,6 +98,7 @@ type FuncSpec struct {
 	Verify      bool // has a body in /repo to verify
 	Handler     string
 	SpawnChecked bool // "spawned checked"
+	ReadsLocked bool     // "readslocked": reads of written_under fields need the mutex in this function
 	LockExempt  string   // "lockexempt #label": the lock rules do not apply in this function (start-up code), listed as an assumption
 	Acquires    []string // trusted lock operations: parameter names whose mutex is acquired / released
 	Releases    []string
@@ -146,7 +147,7 @@ type CallersRule struct {
 	Line    int
 }
 
-var kwRe = regexp.MustCompile(`^(requires|ensures|assume|returns|observe|ghostset|modifies|cover|loop|results|nopanic|inline|unroll|atcall|handler|intmode|reveal|acquiresread|releasesread|acquires|releases|lockexempt|spawned)\b`)
+var kwRe = regexp.MustCompile(`^(requires|ensures|assume|returns|observe|ghostset|modifies|cover|loop|results|nopanic|inline|unroll|atcall|handler|intmode|reveal|acquiresread|releasesread|acquires|releases|lockexempt|readslocked|spawned)\b`)
 
 // readSpecLines extracts the //@ lines of a file ("\" continues a line).
 func readSpecLines(path string) ([]string, []int, error) {
@@ -497,6 +498,10 @@ func parseSpecFile(path string, ps *PkgSpec, trustedFile bool) error {
 				cur.Clauses = append(cur.Clauses, &Clause{Kind: KObserve, Label: f[0], Callee: strings.Join(f[1:], " "), Text: strings.TrimSpace(rest[eqi+3:]), File: path, Line: ln})
 			case "inline":
 				cur.Inline = rest
+			case "readslocked":
+				// in this function the reads of write-guarded fields need the mutex too (it is the function whose
+				// answer must not be a half-updated state)
+				cur.ReadsLocked = true
 			case "lockexempt":
 				_, label, _ := splitLabelTags(" " + rest)
 				if label == "" {
